@@ -1,10 +1,195 @@
 (* C09 - A session served over a connection is indistinguishable from the session.
-   Only statements, each closed by [exact lemma], with Print Assumptions. *)
-From Coq Require Import List Arith Bool.
-From P9 Require Import Model.Flow Proofs.FlowProofs.
-Import ListNotations.
+   Only statements, each closed by [exact lemma], with Print Assumptions.
 
+   gen_client / gen_server / gen_msg_table / gen_errors / gen_owner_loop_writes
+   are REGENERATED from csession.go, ssesssion.go, messages.go, errors.go and
+   transport.go on every run; the theorems are re-checked against what the
+   source says now.  [transfer] is what the connection does to a frame
+   (framing + codec, C01-C03): the theorems ask only that the frames in
+   question arrive as sent. *)
+From Coq Require Import List NArith ZArith Bool String.
+From P9 Require Import Base.Res Base.Sexp Model.WireTypes Gen.GenWire Gen.GenDispatch
+  Model.Pipeline Model.Flow Proofs.PipelineProofs Proofs.FlowProofs.
+Import ListNotations.
+Open Scope Z_scope.
+
+(* 1. Arguments.  For every method of the client, all well-typed arguments,
+   every connection msize in [24, 2^31) and every msize' the served session
+   reports: if the call passes the client's guards (at most 16 walk names) and
+   its request fits msize (reads and writes always do: they are clipped), the
+   served session is called - through the generated client table, the two
+   maybeTruncate passes and the generated server table - with exactly the
+   caller's arguments, up to the documented limits [clip_args] (read count,
+   write data, whole-second 32-bit timestamps; offsets cross as
+   uint64(int64) and back unchanged). *)
+Theorem C09_request : forall (transfer : message -> res message) msize smsize m args,
+  In m gen_client -> wf_args m args -> 24 <= msize < 2 ^ 31 ->
+  first_guard args (cm_guards m) = None ->
+  request_fits msize m args ->
+  (forall q, frame_sent msize m args = Some q -> transfer q = Ok q) ->
+  exists c, In c gen_server /\ sc_method c = cm_name m /\
+    request_path transfer msize smsize m args
+    = Ok (inr (SCall c (clip_args msize smsize (cm_name m) args))).
+Proof. exact request_identity. Qed.
+Print Assumptions C09_request.
+
+(* closed range facts *)
+Ltac rng := vm_compute; split; [let Hx := fresh in intro Hx; discriminate Hx | first [reflexivity | let Hy := fresh in intro Hy; discriminate Hy]].
+
+(* non-vacuity: a Read of 1000 bytes at offset -1 over msize 100 served by a
+   session reporting msize 50 satisfies every premise and reaches the session
+   as Read(fid, 39-byte buffer, -1) *)
+Example C09_request_nonvacuous :
+  exists m c, find_client "Read" = Some m /\ In m gen_client /\
+    wf_args m [GInt 4294967295; GBuf 1000; GInt (-1)] /\
+    first_guard [GInt 4294967295; GBuf 1000; GInt (-1)] (cm_guards m) = None /\
+    request_fits 100 m [GInt 4294967295; GBuf 1000; GInt (-1)] /\
+    (forall q, frame_sent 100 m [GInt 4294967295; GBuf 1000; GInt (-1)] = Some q -> transfer_id q = Ok q) /\
+    request_path transfer_id 100 50 m [GInt 4294967295; GBuf 1000; GInt (-1)]
+    = Ok (inr (SCall c [GInt 4294967295; GBuf 39; GInt (-1)])).
+Proof.
+  eexists. eexists. split; [reflexivity |]. split; [cbn; tauto |].
+  split.
+  { unfold wf_args. cbn [cm_params].
+    constructor; [apply HKInt; rng |]. constructor; [apply HKBuf; rng |].
+    constructor; [apply HKInt; rng |]. constructor. }
+  split; [reflexivity |]. split; [left; reflexivity |]. split; [intros; reflexivity |].
+  vm_compute. reflexivity.
+Qed.
+
+(* 2. Results.  Whatever the served session returns for the call it received
+   - values or an error - the caller gets exactly that: values unchanged,
+   errors as a MessageRerror carrying the error's text, with the three
+   documented projections of [expected] (empty read = EOF, short write,
+   whole-second timestamps), provided the reply frame fits msize and arrives
+   as sent. *)
+Theorem C09_reply : forall (transfer : message -> res message) msize m c args sargs o,
+  In m gen_client -> find_server (cm_req m) = Some c ->
+  result_wf m args sargs o ->
+  (forall r, server_reply c sargs o = Ok r -> msg_size r <= msize /\ transfer r = Ok r) ->
+  reply_path transfer msize m c args sargs o = Ok (expected m args o).
+Proof. exact reply_identity. Qed.
+Print Assumptions C09_reply.
+
+Example C09_reply_nonvacuous :
+  exists m c, find_client "Read" = Some m /\ find_server (cm_req m) = Some c /\
+    result_wf m [GInt 1; GBuf 1000; GInt 0] [GInt 1; GBuf 39; GInt 0]
+      {| o_vals := [GInt 3]; o_out := [7; 8; 9]%N; o_err := ENil |} /\
+    reply_path transfer_id 100 m c [GInt 1; GBuf 1000; GInt 0] [GInt 1; GBuf 39; GInt 0]
+      {| o_vals := [GInt 3]; o_out := [7; 8; 9]%N; o_err := ENil |}
+    = Ok {| o_vals := [GInt 3]; o_out := [7; 8; 9]%N; o_err := ENil |}
+    /\ reply_path transfer_id 100 m c [GInt 1; GBuf 1000; GInt 0] [GInt 1; GBuf 39; GInt 0]
+      {| o_vals := []; o_out := []; o_err := EPlain (str "no such file") |}
+    = Ok {| o_vals := [GInt 0]; o_out := []; o_err := ERerror (str "no such file") |}.
+Proof.
+  eexists. eexists. split; [reflexivity |]. split; [reflexivity |]. split.
+  { intros _. split; [cbn [cm_results o_vals]; constructor; [apply HKInt; rng | constructor] |].
+    split.
+    - intros _. exists 39. split; [reflexivity |]. split; [reflexivity |]. rng.
+    - intros Hx. discriminate Hx. }
+  split; vm_compute; reflexivity.
+Qed.
+
+(* an Rerror passes as the call's error for every method; a reply of any type
+   other than the asserted one is refused *)
+Theorem C09_rerror_passes : forall m args ename,
+  client_result m args (rerror_type, [VF (FStr ename)]) = Ok (zero_outcome m (ERerror ename)).
+Proof. exact rerror_passes. Qed.
+Print Assumptions C09_rerror_passes.
+
+Theorem C09_wrong_reply_type : forall m args t vs,
+  In m gen_client -> t <> rerror_type -> t <> type_of (cm_rep m) ->
+  client_result m args (t, vs) = Ok (zero_outcome m (ERerror (err_ename "ErrUnexpectedMsg"))).
+Proof. exact wrong_type_refused. Qed.
+Print Assumptions C09_wrong_reply_type.
+
+Example C09_wrong_reply_type_nonvacuous :
+  err_ename "ErrUnexpectedMsg" = str "unexpected message" /\
+  exists m, find_client "Stat" = Some m /\
+    client_result m [GInt 1] (type_of "MessageRclunk", [])
+    = Ok (zero_outcome m (ERerror (str "unexpected message"))).
+Proof. split; [exact unexpected_text |]. eexists. split; [reflexivity |]. vm_compute. reflexivity. Qed.
+
+(* 3. The protocol's 16-name limit: nothing is sent, ErrWalkLimit is returned *)
+Theorem C09_walk_limit : forall (transfer : message -> res message) msize smsize fid newfid names,
+  16 < zlen names ->
+  exists m, find_client "Walk" = Some m /\
+    request_path transfer msize smsize m [fid; newfid; GStrs names]
+    = Ok (inl (NotSent (zero_outcome m (ERerror (err_ename "ErrWalkLimit"))))).
+Proof. exact walk_limit_not_sent. Qed.
+Print Assumptions C09_walk_limit.
+
+Example C09_walk_limit_text : err_ename "ErrWalkLimit" = str "too many wnames in walk".
+Proof. exact walk_limit_text. Qed.
+
+(* the client implements the Session interface method for method *)
+Theorem C09_signatures :
+  forallb (fun m => match find (fun e => String.eqb (fst (fst (fst e))) (cm_name m)) gen_session with
+                    | Some (_, ps, v, rs) =>
+                        (Nat.eqb (List.length ps) (List.length (cm_params m))) && Bool.eqb v (cm_variadic m)
+                        && Nat.eqb (List.length rs) (List.length (cm_results m))
+                    | None => false
+                    end) gen_client = true
+  /\ List.length gen_client = List.length gen_session.
+Proof. exact client_signatures_match. Qed.
+Print Assumptions C09_signatures.
+
+(* 4. Concurrent callers obtain their own results: composition of the tag
+   layers' statements (C05: a reply goes to the call that issued its tag, tags
+   of outstanding calls are distinct; C06: each reply carries the tag of the
+   request its own handler invocation answered) with frames arriving as sent.
+   The hypotheses are the sibling models' theorems, to be instantiated. *)
+Theorem C09_own_result :
+  forall (call : Type) (tag_of : call -> N) (request_of : call -> message) (handler : message -> message)
+         (delivered : call -> message -> Prop)
+         (client_received server_sent server_received : N -> message -> Prop),
+  (forall c r, delivered c r -> client_received (tag_of c) r) ->
+  (forall c c', tag_of c = tag_of c' -> c = c') ->
+  (forall t r, client_received t r -> server_sent t r) ->
+  (forall t r, server_sent t r -> exists q, server_received t q /\ r = handler q) ->
+  (forall t q, server_received t q -> exists c, tag_of c = t /\ q = request_of c) ->
+  forall c r, delivered c r -> r = handler (request_of c).
+Proof. exact own_result. Qed.
+Print Assumptions C09_own_result.
+
+(* 5. All of them complete.  The goroutine structure read off transport.go is
+   the repaired one (a dedicated writer goroutine; the owner loop never blocks
+   outside its select) ... *)
+Theorem C09_flow_structure : gen_owner_loop_writes = false.
+Proof. reflexivity. Qed.
+Print Assumptions C09_flow_structure.
+
+(* ... and for that structure, from n concurrent calls, over a connection of
+   ANY buffering capacity (0 = net.Pipe) and under EVERY schedule: no reachable
+   state has all goroutines blocked while a call is pending; an execution has
+   at most 12 n steps; and when nothing can move any more all n callers have
+   returned. *)
+Theorem C09_complete : forall cap n sched s,
+  run Fixed cap (init n) sched = Some s ->
+  stuck Fixed cap s = false
+  /\ (List.length sched <= 12 * n)%nat
+  /\ ((forall e, enabled Fixed cap s e = false) -> c_done s = n).
+Proof. exact fixed_complete. Qed.
+Print Assumptions C09_complete.
+
+Example C09_complete_nonvacuous :
+  exists sched s, run Fixed 0 (init 2) sched = Some s /\ (forall e, enabled Fixed 0 s e = false) /\ c_done s = 2%nat.
+Proof.
+  exists [ESubmit; ESubmit; EQueueToWriter; ECWrite; ESpawn; EQueueToWriter; ECWrite; EFinish; ECompleted;
+          EToWriter; ESpawn; ESWrite; EDeliver; EFinish; ECompleted; EToWriter; ESWrite; EDeliver].
+  eexists. split; [vm_compute; reflexivity |]. split; [intros e; destruct e; reflexivity | reflexivity].
+Qed.
+
+(* D14, the structure before the repair (/repo c33bd77): with the owner loop
+   performing the write itself, five concurrent calls over a connection that
+   buffers nothing reach a state in which every goroutine is blocked; buffering
+   only raises the number of calls needed. *)
 Theorem C09_refuted_deadlock :
   exists sched s, run Current 0 (init 5) sched = Some s /\ stuck Current 0 s = true.
 Proof. exact current_unbuffered_deadlocks. Qed.
 Print Assumptions C09_refuted_deadlock.
+
+Theorem C09_refuted_deadlock_buffered :
+  greedy_stuck Current 1 7 = true /\ greedy_stuck Current 2 9 = true /\ greedy_stuck Current 3 11 = true.
+Proof. exact current_buffered_deadlocks. Qed.
+Print Assumptions C09_refuted_deadlock_buffered.
